@@ -112,7 +112,7 @@ def lab(v):
     if isinstance(v, Ref):
         return lab(v.cell.val)
     if isinstance(v, AdtVal):
-        if v.label is not None and not v.fields:
+        if v.label is not None:
             return v.label
         name = v.vname if v.vname is not None else v.variant
         return ("adt", v.ty, name, tuple((k, lab(c.val)) for k, c in sorted(v.fields.items())))
@@ -165,10 +165,11 @@ def ty_head(ty):
 
 
 class Frame(object):
-    __slots__ = ("key", "locals", "bb", "ret_cell", "ret_bb", "visits", "depth")
+    __slots__ = ("key", "locals", "bb", "ret_cell", "ret_bb", "visits", "depth", "data")
 
     def __init__(self, key, nlocals):
-        self.key = key  # (fn path, promoted index or None)
+        self.data = None
+        self.key = key  # (fn path, promoted index or None); ("<native>", kind) for iterator drivers
         self.locals = [Cell(None) for _ in range(nlocals)]
         self.bb = 0
         self.ret_cell = None
@@ -222,6 +223,8 @@ IDENTITY_CALLS = (
     "<T as std::convert::From<T>>::from",
     "<std::string::String as std::ops::Deref>::deref",
     "<std::vec::Vec<T, A> as std::ops::Deref>::deref",
+    "<std::vec::Vec<T, A> as std::ops::DerefMut>::deref_mut",
+    "<std::string::String as std::ops::DerefMut>::deref_mut",
     "std::convert::AsRef::as_ref", "std::hint::must_use",
     "<std::option::Option<T> as std::clone::Clone>::clone",
     "<std::vec::Vec<T, A> as std::clone::Clone>::clone",
@@ -232,9 +235,17 @@ IDENTITY_CALLS = (
 )
 
 
+ADAPTORS = {
+    "std::iter::Iterator::map": "map", "std::iter::Iterator::filter_map": "filter_map",
+    "std::iter::Iterator::filter": "filter", "std::iter::Iterator::rev": "rev",
+    "std::iter::Iterator::enumerate": "enumerate", "std::iter::Iterator::by_ref": "by_ref",
+    "std::iter::Iterator::copied": "copied", "std::iter::Iterator::cloned": "cloned",
+}
+
+
 class Machine(object):
     def __init__(self, facts, inline=None, opaque_fns=(), max_paths=20000, max_depth=12,
-                 on_next=None, identity_clone=True, keep_trace=False):
+                 on_next=None, identity_clone=True, keep_trace=False, loop_once=False):
         self.facts = facts
         self.inline = inline  # predicate(path) -> bool, default: every crate-local fn with MIR
         self.opaque_fns = set(opaque_fns)
@@ -242,6 +253,7 @@ class Machine(object):
         self.max_depth = max_depth
         self.on_next = on_next
         self.keep_trace = keep_trace
+        self.loop_once = loop_once  # `for` loops: one generic element, then the iterator is exhausted (no fork)
         self.steps = 0
 
     # ---- bodies -------------------------------------------------------------------------------
@@ -522,7 +534,7 @@ class Machine(object):
         body = self.body_of(fr.key)
         blk = body["blocks"][fr.bb]
         n = fr.visits.get(fr.bb, 0)
-        if n >= 1 and self.is_loop_head(fr.key, fr.bb):
+        if n >= 1 and not self.loop_once and self.is_loop_head(fr.key, fr.bb):
             st.exit = "loop_back"
             st.ret = ("loop_back", fr.key[0], fr.bb)
             return None
@@ -557,6 +569,8 @@ class Machine(object):
             caller = st.frames[-1]
             if fr.ret_cell is not None:
                 fr.ret_cell.val = ret
+            if caller.key[0] == "<native>":
+                return self.native_resume(st, caller, ret)
             caller.bb = fr.ret_bb
             return None
         if k == "switch":
@@ -828,7 +842,7 @@ class Machine(object):
             v = args[0]
             if isinstance(v, Ref):
                 inner = v.cell.val
-                if d.endswith("::deref") or d.endswith("::as_ref") or d.endswith("::as_mut") or d.endswith("::as_str"):
+                if d.endswith("::deref") or d.endswith("::deref_mut") or d.endswith("::as_ref") or d.endswith("::as_mut") or d.endswith("::as_str") or name.endswith("::deref") or name.endswith("::deref_mut"):
                     return finish(v)
                 return finish(copy_val(inner) if inner is not None else Opaque("uninit"))
             return finish(copy_val(v))
@@ -885,10 +899,30 @@ class Machine(object):
         if d == "std::iter::IntoIterator::into_iter" or d.endswith("::iter") or d.endswith("::iter_mut"):
             a = deref_val(args[0])
             return finish(Opaque(("iter", lab(a))))
+        if d in ADAPTORS:
+            kind = ADAPTORS[d]
+            fields = {0: Cell(args[0])}
+            if len(args) > 1:
+                fields[1] = Cell(args[1])
+            return finish(AdtVal("iter:" + kind, None, fields))
+        if d in ("std::iter::Iterator::for_each", "std::iter::Iterator::try_for_each"):
+            return self.start_iteration(st, fr, t, d.rsplit("::", 1)[1], args, dest, target)
         if d == "std::iter::Iterator::next":
             it = deref_val(args[0])
             il = base_label(lab(it))
+            if isinstance(il, tuple) and il and il[0] == "iter":
+                il = il[1]
             st.counter += 1
+            if self.loop_once:
+                seen = sum(1 for e in st.effects if e[0] == "next" and e[1] == il) - sum(1 for e in st.effects if e[0] == "next_end" and e[1] == il)
+                if seen >= 1:
+                    st.effects.append(("next_end", il, loc(t)))
+                    return finish(AdtVal("std::option::Option", 0, {}, None, "None"))
+                ev = self.on_next(il) if self.on_next is not None else None
+                if ev is None:
+                    ev = Opaque(("elem", il))
+                st.effects.append(("next", il, loc(t)))
+                return finish(AdtVal("std::option::Option", 1, {0: Cell(ev)}, None, "Some"))
             ev = self.on_next(il) if self.on_next is not None else None
             if ev is None:
                 ev = Opaque(("elem", il))
@@ -903,7 +937,23 @@ class Machine(object):
             st.conds.append((("next", il), "Some"))
             fr.bb = target
             return [s2]
-        # ---- crate-local function with MIR: inline
+        if d in ("std::ops::Index::index", "std::ops::IndexMut::index_mut"):
+            base = args[0]
+            bv = deref_val(base)
+            idx = args[1]
+            if isinstance(bv, VecVal) and isinstance(idx, Const) and idx.kind == "int":
+                if idx.v >= len(bv.elems):
+                    st.exit = "panic"
+                    st.ret = ("panic", "index %d out of bounds (len %d)" % (idx.v, len(bv.elems)), loc(t))
+                    return None
+                return finish(Ref(bv.elems[idx.v], isinstance(base, Ref) and base.mut))
+            st.effects.append(("index", lab(bv), lab(idx), loc(t)))
+            return finish(Ref(Cell(Opaque(("index", lab(bv), lab(idx)))), False))
+        # ---- crate-local function with MIR: inline (a function already on the stack is not
+        # unfolded again: the recursive call is recorded as an effect - induction hypothesis)
+        if self.may_inline(name) and any(f.key[0] == name for f in st.frames):
+            st.effects.append(("recurse", name, tuple(lab(a) for a in args), loc(t)))
+            return finish(Opaque(("recurse", name, tuple(lab(a) for a in args)), t["dest"]["ty"]))
         if self.may_inline(name):
             fr.bb = target
             self.push_frame(st, (name, None), args, dest, target)
@@ -919,6 +969,117 @@ class Machine(object):
                     self.bump(a)
         res = Opaque(("call", sname, arg_labels), t["dest"]["ty"])
         return finish(res)
+
+    # ---- iterator drivers (one generic element per for_each / try_for_each) -------------------------
+    def start_iteration(self, st, fr, t, mode, args, dest, target):
+        it = deref_val(args[0])
+        stages = []
+        while isinstance(it, AdtVal) and it.ty.startswith("iter:"):
+            kind = it.ty[5:]
+            clo = it.fields[1].val if 1 in it.fields else None
+            stages.append((kind, clo))
+            it = deref_val(it.fields[0].val)
+        stages.reverse()
+        src = base_label(lab(it))
+        if isinstance(src, tuple) and src and src[0] == "iter":
+            src = src[1]
+        elem = self.on_next(src) if self.on_next is not None else None
+        if elem is None:
+            elem = Opaque(("elem", src))
+        kinds = [k for k, _ in stages]
+        st.effects.append(("iterate", mode, src, tuple(kinds), loc(t)))
+        nf = Frame(("<native>", mode), 0)
+        nf.locals = [Cell(elem), dest] + [Cell(c) for _, c in stages] + [Cell(args[1])]
+        nf.data = {"kinds": kinds + ["sink"], "idx": 0, "target": target, "mode": mode, "loc": loc(t), "src": src}
+        fr.bb = target
+        st.frames.append(nf)
+        return self.native_advance(st, nf)
+
+    def native_finish(self, st, nf, value):
+        st.frames.pop()
+        nf.locals[1].val = value
+        st.effects.append(("iterate_end", nf.data["mode"], nf.data["src"], nf.data["loc"]))
+        return None
+
+    def native_advance(self, st, nf):
+        d = nf.data
+        while True:
+            kind = d["kinds"][d["idx"]]
+            if kind in ("rev", "enumerate", "peekable", "by_ref", "copied", "cloned"):
+                d["idx"] += 1
+                continue
+            break
+        clo = nf.locals[2 + d["idx"]].val
+        value = nf.locals[0].val
+        return self.call_value(st, nf, clo, [value])
+
+    def call_value(self, st, nf, f, cargs):
+        """call closure value f with args; result delivered to native_resume"""
+        fv = deref_val(f)
+        if isinstance(fv, AdtVal) and fv.ty.startswith("closure:") and self.may_inline(fv.ty[8:]):
+            cpath = fv.ty[8:]
+            body = self.facts.fns[cpath]["body"]
+            by_ref = body["locals"][1]["ty"].startswith("&")
+            if by_ref:
+                env = f if isinstance(f, Ref) and isinstance(f.cell.val, AdtVal) else (f.cell.val if isinstance(f, Ref) and isinstance(f.cell.val, Ref) else Ref(Cell(fv), True))
+            else:
+                env = fv
+            self.push_frame(st, (cpath, None), [env] + cargs, None, None)
+            return None
+        if isinstance(fv, Const) and fv.kind == "fn" and self.may_inline(fv.v.get("resolved") or fv.v["def"]):
+            self.push_frame(st, (fv.v.get("resolved") or fv.v["def"], None), cargs, None, None)
+            return None
+        # unknown callable (a caller-supplied callback, or a fn item kept opaque)
+        name = (fv.v.get("resolved") or fv.v["def"]) if isinstance(fv, Const) and fv.kind == "fn" else "callback"
+        lbl = tuple([lab(fv)] + [lab(a) for a in cargs]) if name == "callback" else tuple(lab(a) for a in cargs)
+        st.effects.append(("call", name, lbl, nf.data["loc"]))
+        ret = Opaque(("call", name, lbl))
+        return self.native_resume(st, nf, ret)
+
+    def native_resume(self, st, nf, ret):
+        d = nf.data
+        kind = d["kinds"][d["idx"]]
+        if kind == "sink":
+            if d["mode"] == "for_each":
+                return self.native_finish(st, nf, Const("unit", None))
+            return self.native_finish(st, nf, ret)
+        if kind == "map":
+            nf.locals[0].val = ret
+            d["idx"] += 1
+            return self.native_advance(st, nf)
+        if kind in ("filter_map", "filter"):
+            rv = deref_val(ret)
+            if kind == "filter_map":
+                if isinstance(rv, AdtVal) and rv.variant is not None:
+                    if rv.variant == 0:
+                        return self.native_finish(st, nf, self.unit_result(d))
+                    nf.locals[0].val = self.field_cell(rv, 0, None, None).val
+                    d["idx"] += 1
+                    return self.native_advance(st, nf)
+            else:
+                if isinstance(rv, Const) and rv.kind == "bool":
+                    if not rv.v:
+                        return self.native_finish(st, nf, self.unit_result(d))
+                    d["idx"] += 1
+                    return self.native_advance(st, nf)
+            # undecided filter: fork
+            s2 = copy.deepcopy(st)
+            n2 = s2.frames[-1]
+            label = lab(rv)
+            s2.conds.append((("filter", label), False))
+            self.native_finish(s2, n2, self.unit_result(n2.data))
+            st.conds.append((("filter", label), True))
+            if kind == "filter_map":
+                nf.locals[0].val = Opaque(join_label(label, "Some.0"))
+            d["idx"] += 1
+            self.native_advance(st, nf)
+            return [s2]
+        raise Unsupported("iterator adaptor %s" % kind)
+
+    def unit_result(self, d):
+        if d["mode"] == "for_each":
+            return Const("unit", None)
+        return AdtVal("std::ops::ControlFlow", 0, {0: Cell(Const("unit", None))}, None, "Continue")
 
     def bump(self, ref):
         if isinstance(ref, Ref):
